@@ -571,24 +571,27 @@ def check_timer_data(ctx, exe, mexe, mism, dist):
         tg, dl, data, tg2, dl2 = [int(x) for x in a.split()]
         ck = [int(x) for x in b.split()]
         obs.append((data, tg2, dl2))
-        for now in (ck[c[0]], ck[3 + c[0]]):
+        nb, na = ck[c[0]], ck[3 + c[0]]
+        # the reading made inside the call lies in [nb, na]; if the target moved, it lies in [target' - interval, target' - 1]
+        inside = min(max(tg2 - c[3], nb), na) if (tg2 != tg and c[3] < I63) else nb
+        for now in (nb, na, inside):
             ml += ["N 1", "t 1 %d" % (c[0] << 2), "c 1 %d %d %d %d" % (c[0], tg, dl % U64, c[3]), "g 1", "p 1 %d" % c[4], "l 1 %d" % now, "S"]
     m = common.run([mexe], input="\n".join(ml) + "\n", timeout=600)
     mo = [[int(x) for x in l.split()] for l in m.stdout.split("\n") if l.strip()]
-    if m.returncode != 0 or len(mo) != 4 * len(cases):
+    if m.returncode != 0 or len(mo) != 6 * len(cases):
         mism.append({"what": "model driver failed (_dispatch_source_timer_data)", "detail": {"lines": len(mo), "err": (m.stderr or "")[-800:]}})
         return 0
     caught = moved = 0
     for i, (c, o) in enumerate(zip(cases, obs)):
         res = []
-        for k in (0, 1):
-            d = mo[4 * i + 2 * k][0]
-            stt = mo[4 * i + 2 * k + 1]
+        for k in (0, 1, 2):
+            d = mo[6 * i + 2 * k][0]
+            stt = mo[6 * i + 2 * k + 1]
             res.append((d, stt[16 + 2], stt[16 + 3]))
         if o not in res:
             mism.append({"what": "_dispatch_source_timer_data (src/source.c, the handler-side catch-up) differs from Model/TimerRun.v latch "
-                                 "(evaluated at the clock readings before and after the call)",
-                         "detail": {"clock,back,leeway,interval,prev,abs": list(c), "impl data,target,deadline": list(o), "model_before": list(res[0]), "model_after": list(res[1])}})
+                                 "(evaluated at the clock readings before and after the call and at the reading in between that the new target implies)",
+                         "detail": {"clock,back,leeway,interval,prev,abs": list(c), "impl data,target,deadline": list(o), "model_before": list(res[0]), "model_after": list(res[1]), "model_inside": list(res[2])}})
         if o[0] != c[4] >> 1:
             caught += 1
     dist["timer_data_calls"] = len(cases)
